@@ -168,6 +168,14 @@ def _model(case, ctx):
     opts.update(dtype_amps=['float64', 'float32'][int(rng.integers(0, 2))],
                 dtype_templates=['float32', 'float32', 'float64'][int(rng.integers(0, 3))],
                 dtype_feat=['float32', 'float64'][int(rng.integers(0, 2))])
+    if feat == 'sparse_rows':
+        opts['feat_rows_mode'] = ['subset', 'complete_by_template', 'subset_unsorted'][case['seed'][2] % 3]
+    if case['seed'][2] % 4 == 1:
+        opts['feat_nan_rows'] = 2               # spikes whose stored values are all NaN
+    if case['seed'][2] % 5 == 2:
+        # sparse templates whose column table is as wide as the feature store (it must not be taken for the features' table)
+        opts.update(sparse_templates=True, clusters='same')
+        opts['tnloc'] = opts['nc'] if feat == 'dense' else 4
     spec = random_spec(rng, **opts)
     d = scratch_dir('c06_')
     desc = {'seed': case['seed'], 'opts': opts}
@@ -232,7 +240,9 @@ def _features(m, spec, desc, ctx, rng, feat):
                 for j, c in enumerate(ch.tolist()):
                     hit = np.nonzero(cols == c)[0]
                     e = F[row, :, hit[0]] if len(hit) == 1 else np.zeros(npcs, F.dtype)
-                    if not np.array_equal(out[i, j].astype(np.float64), e.astype(np.float64)):
+                    o_, e_ = out[i, j].astype(np.float64), e.astype(np.float64)
+                    # a stored NaN may come back as NaN or (when the file is loaded eagerly) as the documented 0
+                    if not (np.array_equal(o_, e_, equal_nan=True) or (np.isnan(e_).any() and np.array_equal(o_, np.nan_to_num(e_, nan=0.0)))):
                         bad = 'spike %d channel %d: %r != expected %r' % (s, c, out[i, j].tolist(), e.tolist())
                         break
                 if bad:
@@ -265,7 +275,8 @@ def _features(m, spec, desc, ctx, rng, feat):
             for kk, c in enumerate(cols.tolist()):
                 if 0 <= c < nc and (cols == c).sum() == 1:
                     e[c] = F[row, :, kk]
-            if out.shape != (k, nc, npcs) or not np.array_equal(out[i].astype(np.float64), e):
+            o_ = out[i].astype(np.float64) if out.shape == (k, nc, npcs) else None
+            if o_ is None or not (np.array_equal(o_, e, equal_nan=True) or np.array_equal(o_, np.nan_to_num(e, nan=0.0))):
                 ctx.violation('densify_mismatch', dict(desc, request=req),
                               'get_features on a refilled id buffer (call %d): spike %d differs from the stored values' % (q, s), f)
                 break
